@@ -361,6 +361,7 @@ fn c04_rx_dataexch() {
     let t = any_admissible_reply(&store[..n]);
     let is_sc = matches!(t, crate::fdl::Telegram::ShortConfirmation(_));
     let status = match &t { crate::fdl::Telegram::Data(d) => d.is_response(), _ => None };
+    let saps_ok = match &t { crate::fdl::Telegram::Data(d) => d.h.dsap.is_none() && d.h.ssap.is_none(), _ => true };
     let diag = ref_diag(&t);
     let ev = p.receive_reply(vk_any_instant(), &dp_state(kani::any()), &fdl, t);
     let i: usize = kani::any();
@@ -374,6 +375,8 @@ fn c04_rx_dataexch() {
         else { assert!(ev.is_none() && p.diag_needed && p.retry_count == s0.retry && p.fcb == s0.fcb && p.state == state); }
     } else {
         use crate::fdl::ResponseStatus as RS;
+        // a Data_Exchange reply uses the default SAPs: a response that carries a DSAP / SSAP is a reply of the wrong kind
+        let status = if saps_ok { status } else { None };
         let good = matches!(status, Some(RS::Ok) | Some(RS::DataLow) | Some(RS::DataHigh)) && n == ni;
         let sc_ok = is_sc && ni == 0;
         kani::cover!(good && ni > 0);
